@@ -190,8 +190,8 @@ def check_c20(tier: str, seed: int) -> int:
         run.case("family:" + ">".join(w["fam"]), nontrivial=True)
         if wv.get(i):
             ks = set(w["fam"])
-            subs = sorted("+".join(sorted(b)) for b in bad_small if b < ks or b == ks)
-            kinds = subs[0] if subs else "+".join(sorted(ks))
+            subs = sorted((len(b), "+".join(sorted(b))) for b in bad_small if b < ks or b == ks)
+            kinds = subs[0][1] if subs else "+".join(sorted(ks))
             run.violation(f"{sorted(wv[i])[0]}|kinds={kinds}", sorted(wv[i])[0],
                           {"family": w["fam"], "depth": d, "renderer_calls": w["o"], "frames": w["frames"]})
     for j, shape in enumerate(("bindings", "chain", "list"), start=1):
